@@ -173,37 +173,288 @@ Proof.
       intros r i Hne Hin. rewrite Hrun. apply alist_del_keeps; auto.
     - intros r i Hne Hin. rewrite Hrun. apply alist_del_keeps; auto. }
   destruct L1 as [L1 Keep1]. fold c1.
-  destruct (op_to match get_op c1 id with Some x => x | None => o end STARTED) as [o1 started].
+  (* the operator table only moves forward from c on *)
+  assert (F1 : ops_fwd c c1).
+  { unfold c1. destruct (alist_get (running c) (o_rid o)) as [oldid|]; [|apply ops_fwd_same; reflexivity].
+    destruct (get_op c oldid) as [old|] eqn:Hold; [|apply ops_fwd_same; reflexivity].
+    eapply ops_fwd_trans; [|apply (fr_fwd _ _ (frame_bury _ oldid))].
+    eapply ops_fwd_trans; [apply (fr_fwd _ _ (frame_remove_locked c old))|].
+    assert (Hold' : get_op (fst (remove_locked c old)) oldid = Some old).
+    { unfold remove_locked. destruct (alist_get (running c) (o_rid old)) as [j|]; [destruct (j =? o_id old)|]; exact Hold. }
+    apply (fr_fwd _ _ (frame_op_update _ oldid old (fst (op_to old REPLACED)) Hold' (rel_op_to old REPLACED))). }
+  destruct (F1 _ _ Ho) as (x & Hx & _). rewrite Hx.
+  pose proof (rel_op_to x STARTED) as Rs. destruct (op_to x STARTED) as [o1 started]. cbn [fst] in Rs.
   destruct started; cbn [negb]; [|exact L1].
   (* the new entry replaces only the entry of its own region, which c1 has already dealt with *)
   assert (L2 : forall cx, (forall r i, r <> o_rid o -> In (r, i) (running c1) -> In (r, i) (running cx)) ->
-                     (forall i, ended c1 i -> ended cx i) -> Left c cx).
+                     ops_fwd c1 cx -> Left c cx).
   { intros cx Hk He r i Hin. destruct (Z.eq_dec r (o_rid o)) as [->|Hne].
-    - destruct (L1 _ _ Hin) as [H1|H1]; [|right; apply He; exact H1].
-      (* still in running c1 under this region: then nothing was replaced, i.e. there was no entry — impossible *)
+    - destruct (L1 _ _ Hin) as [H1|H1]; [|right; eapply ended_ops_fwd; eauto].
       exfalso. unfold c1 in H1. destruct (alist_get (running c) (o_rid o)) as [oldid|] eqn:Hget.
       + destruct (get_op c oldid) as [old|] eqn:Hold.
         * assert (Hk' : o_rid old = o_rid o) by (eapply K; [apply alist_get_In; exact Hget|exact Hold]).
           assert (Hi : o_id old = oldid) by (eapply get_op_id; eauto).
           rewrite running_bury in H1. unfold remove_locked in H1. rewrite Hk', Hget, Hi, Z.eqb_refl in H1. cbn in H1.
           apply alist_del_In in H1 as [_ H1]. cbn in H1. congruence.
-        * destruct (W _ _ (alist_get_In _ _ _ Hget)) as (x & Hx). congruence.
+        * destruct (W _ _ (alist_get_In _ _ _ Hget)) as (y & Hy). congruence.
       + unfold alist_get in Hget. destruct (find (fun e => fst e =? o_rid o) (running c)) eqn:F; [discriminate|].
         pose proof (find_none _ _ F _ Hin) as N. cbn in N. rewrite Z.eqb_refl in N. discriminate.
     - left. apply Hk; auto. }
   set (c2 := set_running (set_op c1 o1) (alist_set (running c1) (o_rid o) id)).
   assert (Hk2 : forall r i, r <> o_rid o -> In (r, i) (running c1) -> In (r, i) (running c2)).
   { intros r i Hne Hin. unfold c2; cbn. right. apply alist_del_keeps; auto. }
-  (* the operator table only moves forward from c1 on *)
-  assert (Hx1 : exists x, get_op c1 id = Some x).
-  { assert (F1 : ops_fwd c c1).
-    { unfold c1. destruct (alist_get (running c) (o_rid o)) as [oldid|]; [|apply ops_fwd_same; reflexivity].
-      destruct (get_op c oldid) as [old|] eqn:Hold; [|apply ops_fwd_same; reflexivity].
-      eapply ops_fwd_trans; [|apply (fr_fwd _ _ (frame_bury _ oldid))].
-      eapply ops_fwd_trans; [apply (fr_fwd _ _ (frame_remove_locked c old))|].
-      assert (Hold' : get_op (fst (remove_locked c old)) oldid = Some old).
-      { unfold remove_locked. destruct (alist_get (running c) (o_rid old)) as [j|]; [destruct (j =? o_id old)|]; exact Hold. }
-      apply (fr_fwd _ _ (frame_op_update _ oldid old (fst (op_to old REPLACED)) Hold' (rel_op_to old REPLACED))). }
-    destruct (F1 _ _ Ho) as (x & Hx & _). eauto. }
-  admit.
-Admitted.
+  assert (Fa : ops_fwd c1 c2).
+  { eapply ops_fwd_trans; [apply (fr_fwd _ _ (frame_op_update c1 id x o1 Hx Rs))|apply ops_fwd_same; reflexivity]. }
+  destruct (alist_get (cache c2) (o_rid o)) as [r|]; cbn [fst]; [|apply L2; auto].
+  pose proof (rel_op_check o1 r) as Rc. destruct (op_check o1 r) as [o2 st]. cbn [fst] in Rc.
+  assert (Ho1 : get_op c2 id = Some o1).
+  { assert (I : o_id o1 = id) by (destruct Rs as (R1 & _); rewrite R1; eapply get_op_id; eauto).
+    change (get_op (set_op c1 o1) id = Some o1). rewrite <- I. apply get_set_op_same with (o := x). rewrite I. exact Hx. }
+  assert (Fb : ops_fwd c1 (set_op c2 o2)).
+  { eapply ops_fwd_trans; [exact Fa|apply (fr_fwd _ _ (frame_op_update c2 id o1 o2 Ho1 Rc))]. }
+  destruct st as [s|]; cbn [fst]; apply L2; auto.
+Qed.
+
+Lemma left_comp a b c : Left a b -> Frame b c -> Left b c -> Left a c.
+Proof. intros L1 F L2. eapply Left_trans; eauto. Qed.
+
+Lemma left_add_locked' c id : WF c -> admissible c id -> Left c (fst (add_locked c id)) /\ Frame c (fst (add_locked c id)).
+Proof. intros H A. split; [apply left_add_locked; exact H|apply frame_add_locked'; exact A]. Qed.
+
+Lemma left_add_all_locked ids : forall c, WF c -> (forall id, In id ids -> admissible c id) -> Left c (fst (add_all_locked c ids)).
+Proof.
+  induction ids as [|id r IH]; intros c H A; cbn [add_all_locked fst]; [apply Left_refl|].
+  destruct (left_add_locked' c id H (A id (or_introl eq_refl))) as [L F].
+  destruct (add_locked c id) as [c' ok]. cbn [fst] in *. destruct ok; cbn [fst]; [|exact L].
+  assert (A' : forall i, In i r -> admissible c' i) by (intros i Hi; eapply admissible_fwd; [exact F|apply A; right; exact Hi]).
+  eapply Left_trans; [exact L|apply IH; [eapply WF_frame; eauto|exact A']|apply frame_add_all_locked; exact A'].
+Qed.
+
+Lemma left_running_same_frame c c' : running c' = running c -> Left c c'.
+Proof. apply Left_same. Qed.
+
+Lemma running_check_add_fold ids : forall c b,
+  running (fst (fold_left (fun '(c', ok) id =>
+                 match get_op c' id with
+                 | Some o => let '(o', ex) := check_expired o in (set_op c' o', ok && negb ex)
+                 | None => (c', ok)
+                 end) ids (c, b))) = running c.
+Proof.
+  induction ids as [|id r IH]; intros c b; cbn [fold_left fst]; [reflexivity|].
+  destruct (get_op c id) as [o|]; [|apply IH]. destruct (check_expired o) as [o' ex]. rewrite IH. reflexivity.
+Qed.
+
+Lemma running_check_add c ids : running (fst (check_add c ids)) = running c.
+Proof.
+  unfold check_add. destruct (negb (forallb (check_add_one c) _)); cbn [fst]; [reflexivity|apply running_check_add_fold].
+Qed.
+
+Lemma running_bury_cancel_fold ids : forall c, running (fold_left (fun c' id => bury (cancel c' id) id) ids c) = running c.
+Proof.
+  induction ids as [|id r IH]; intros c; cbn [fold_left]; [reflexivity|]. rewrite IH, running_bury, running_cancel. reflexivity.
+Qed.
+
+Lemma left_add_operator c ids : WF c -> Left c (fst (add_operator c ids)).
+Proof.
+  intros H. unfold add_operator. pose proof (frame_check_add c ids) as F. pose proof (running_check_add c ids) as R.
+  destruct (check_add c ids) as [c1 ok] eqn:E. cbn [fst] in F, R. destruct ok; cbn [negb fst].
+  - eapply Left_trans; [apply Left_same; exact R| |].
+    + apply left_add_all_locked; [eapply WF_frame; eauto|]. intros id Hin. eapply check_add_admissible; eauto.
+    + apply frame_add_all_locked. intros id Hin. eapply check_add_admissible; eauto.
+  - apply Left_same. rewrite running_bury_cancel_fold. exact R.
+Qed.
+
+Lemma left_promote_loop fuel : forall c, WF c -> Left c (promote_loop fuel c).
+Proof.
+  induction fuel as [|f IH]; intros c H; cbn [promote_loop]; [apply Left_refl|].
+  destruct (waiting c) as [|id rest]; [apply Left_refl|].
+  set (c0 := upd c (truth c) (cache c) (ops c) (running c) rest (wcount c) (records c) (inbox c)).
+  assert (F0 : Frame c c0) by apply frame_waiting_upd.
+  pose proof (frame_check_add c0 [id]) as F1. pose proof (running_check_add c0 [id]) as R1.
+  destruct (check_add c0 [id]) as [c1 ok] eqn:E. cbn [fst] in F1, R1.
+  set (d := match get_op c0 id with Some o => o_desc o | None => 0 end).
+  set (c2 := set_wcount c1 d (wcount_of c1 d - 1)).
+  assert (F2 : Frame c1 c2) by apply frame_set_wcount.
+  assert (F02 : Frame c c2) by (eapply Frame_trans; [exact F0|eapply Frame_trans; eauto]).
+  assert (L02 : Left c c2) by (apply Left_same; unfold c2; cbn; rewrite R1; reflexivity).
+  assert (H2 : WF c2) by (eapply WF_frame; eauto).
+  destruct ok.
+  - assert (A : admissible c2 id) by (eapply admissible_fwd; [exact F2|eapply check_add_admissible; [exact E|left; reflexivity]]).
+    eapply Left_trans; [exact L02|apply left_add_locked; exact H2|apply frame_add_locked'; exact A].
+  - set (c3 := bury (cancel c2 id) id).
+    assert (F3 : Frame c2 c3) by (eapply Frame_trans; [apply frame_cancel|apply frame_bury]).
+    assert (L3 : Left c2 c3) by (apply Left_same; unfold c3; rewrite running_bury, running_cancel; reflexivity).
+    eapply Left_trans; [eapply Left_trans; [exact L02|exact L3|exact F3]|apply IH; eapply WF_frame; eauto|apply frame_promote_loop].
+Qed.
+
+Lemma left_promote c : WF c -> Left c (promote c).
+Proof. apply left_promote_loop. Qed.
+
+Lemma running_add_waiting_loop ids : forall c n, running (fst (fst (add_waiting_loop c ids n))) = running c.
+Proof.
+  induction ids as [|id r IH]; intros c n; cbn [add_waiting_loop fst]; [reflexivity|].
+  destruct (get_op c id) as [o|]; [|reflexivity].
+  pose proof (running_check_add c [id]) as R. destruct (check_add c [id]) as [c1 ok]. cbn [fst] in R.
+  destruct ok; cbn [negb fst].
+  - rewrite IH. cbn. exact R.
+  - rewrite running_bury, running_cancel. exact R.
+Qed.
+
+Lemma left_add_waiting c ids : WF c -> Left c (fst (add_waiting c ids)).
+Proof.
+  intros H. unfold add_waiting. pose proof (frame_add_waiting_loop ids c 0) as F. pose proof (running_add_waiting_loop ids c 0) as R.
+  destruct (add_waiting_loop c ids 0) as [[c1 n] complete]. cbn [fst] in *.
+  destruct complete; [|apply Left_same; exact R].
+  eapply Left_trans; [apply Left_same; exact R|apply left_promote; eapply WF_frame; eauto|apply frame_promote].
+Qed.
+
+Lemma left_remove_promote c id :
+  WF c -> Left c (fst (let '(c', removed) := remove_operator c id in if removed then (promote c', true) else (c', false))).
+Proof.
+  intros H. pose proof (frame_remove_operator c id) as F. pose proof (left_remove_operator c id (wf_rinv _ H)) as L.
+  destruct (remove_operator c id) as [c' removed]. cbn [fst] in *.
+  destruct removed; cbn [fst]; [|exact L].
+  eapply Left_trans; [exact L|apply left_promote; eapply WF_frame; eauto|apply frame_promote].
+Qed.
+
+Lemma left_check_stale c o s r : WF c -> Left c (fst (check_stale c o s r)).
+Proof.
+  intros H. unfold check_stale.
+  set (first := if is_some (check_safety r s)
+                then let '(c', removed) := remove_operator c (o_id o) in if removed then (promote c', true) else (c', false)
+                else (c, false)).
+  assert (F1 : Frame c (fst first) /\ Left c (fst first)).
+  { unfold first. destruct (is_some (check_safety r s)); [split; [apply frame_remove_promote|apply left_remove_promote; exact H]|
+                                                          split; [apply Frame_refl|apply Left_refl]]. }
+  destruct F1 as [F1 L1]. destruct first as [c1 done1]. cbn [fst] in F1, L1. destruct done1; cbn [fst]; [exact L1|].
+  destruct (Gen_C09.stale_cmp_gt _ _); cbn [fst]; [|exact L1].
+  eapply Left_trans; [exact L1|apply left_remove_promote; eapply WF_frame; eauto|apply frame_remove_promote].
+Qed.
+
+Lemma left_dispatch c rid r hb : WF c -> Left c (dispatch c rid r hb).
+Proof.
+  intros H. unfold dispatch. destruct (alist_get (running c) rid) as [id|] eqn:Hrun; [|apply Left_refl].
+  destruct (get_op c id) as [o0|] eqn:Ho; [|apply Left_refl].
+  pose proof (rel_op_check o0 r) as R. destruct (op_check o0 r) as [o st]. cbn [fst] in R.
+  assert (F1 : Frame c (set_op c o)) by (apply frame_op_update with (id := id) (o := o0); auto).
+  assert (L1 : Left c (set_op c o)) by (apply Left_same; reflexivity).
+  assert (H1 : WF (set_op c o)) by (eapply WF_frame; eauto).
+  assert (Hoid : o_id o = id) by (destruct R as (R1 & _); rewrite R1; eapply get_op_id; eauto).
+  assert (Ho1 : get_op (set_op c o) id = Some o).
+  { rewrite <- Hoid. apply get_set_op_same with (o := o0). rewrite Hoid. exact Ho. }
+  (* default branch: remove without bury, then cancel + bury + promote *)
+  assert (Ld : Left (set_op c o) (let '(c2, removed) := remove_locked (set_op c o) o in
+                                  if removed then promote (bury (cancel c2 id) id) else c2)).
+  { unfold remove_locked. destruct (alist_get (running (set_op c o)) (o_rid o)) as [i|] eqn:Hget; [|apply Left_refl].
+    destruct (i =? o_id o) eqn:E; [|apply Left_refl].
+    apply Z.eqb_eq in E. rewrite Hoid in E. subst i.
+    set (cr := set_running (set_op c o) (alist_del (running (set_op c o)) (o_rid o))).
+    assert (Fr : Frame (set_op c o) cr) by apply frame_running_del.
+    set (cb := bury (cancel cr id) id).
+    assert (Fb : Frame cr cb) by (eapply Frame_trans; [apply frame_cancel|apply frame_bury]).
+    assert (Lb : Left (set_op c o) cb).
+    { apply left_del with (rid := o_rid o) (id := id); [apply (wf_rinv _ H1)|exact Hget| |].
+      - intros r0 i Hne Hin. unfold cb. rewrite running_bury, running_cancel. cbn. apply alist_del_keeps; auto.
+      - assert (Hcr : get_op cr id = Some o) by exact Ho1.
+        destruct (get_op_cancel cr id o Hcr) as (o' & Ho'). eapply bury_ended; eauto. }
+    eapply Left_trans; [exact Lb|apply left_promote; eapply WF_frame; [exact Fb|eapply WF_frame; eauto]|apply frame_promote]. }
+  assert (Lr : Left (set_op c o) (let '(c2, removed) := remove_operator (set_op c o) id in if removed then promote c2 else c2)).
+  { pose proof (frame_remove_operator (set_op c o) id) as F. pose proof (left_remove_operator (set_op c o) id (wf_rinv _ H1)) as L.
+    destruct (remove_operator (set_op c o) id) as [c2 removed]. cbn [fst] in *.
+    destruct removed; [|exact L]. eapply Left_trans; [exact L|apply left_promote; eapply WF_frame; eauto|apply frame_promote]. }
+  assert (Fd : Frame (set_op c o) (let '(c2, removed) := remove_locked (set_op c o) o in
+                                     if removed then promote (bury (cancel c2 id) id) else c2)).
+  { pose proof (frame_remove_locked (set_op c o) o) as F. destruct (remove_locked (set_op c o) o) as [c2 removed]. cbn [fst] in F.
+    destruct removed; [|exact F]. eapply Frame_trans; [exact F|].
+    eapply Frame_trans; [apply frame_cancel|]. eapply Frame_trans; [apply frame_bury|apply frame_promote]. }
+  assert (Fr : Frame (set_op c o) (let '(c2, removed) := remove_operator (set_op c o) id in if removed then promote c2 else c2)).
+  { pose proof (frame_remove_operator (set_op c o) id) as F. destruct (remove_operator (set_op c o) id) as [c2 removed]. cbn [fst] in F.
+    destruct removed; [|exact F]. eapply Frame_trans; [exact F|apply frame_promote]. }
+  destruct (o_st o); try (eapply Left_trans; [exact L1|exact Ld|exact Fd]); try (eapply Left_trans; [exact L1|exact Lr|exact Fr]).
+  destruct st as [s|]; [|exact L1].
+  set (p := if hb then check_stale (set_op c o) o s r else (set_op c o, false)).
+  assert (Fp : Frame (set_op c o) (fst p) /\ Left (set_op c o) (fst p)).
+  { unfold p. destruct hb; [split; [apply frame_check_stale|apply left_check_stale; exact H1]|split; [apply Frame_refl|apply Left_refl]]. }
+  destruct Fp as [Fp Lp]. destruct p as [c2 handled]. cbn [fst] in Fp, Lp.
+  assert (L2 : Left c c2) by (eapply Left_trans; [exact L1|exact Lp|exact Fp]).
+  destruct handled; [exact L2|]. intros rr ii Hin. destruct (L2 _ _ Hin) as [X|X]; [left; exact X|right].
+  eapply ended_fwd; [apply frame_send|exact X].
+Qed.
+
+(* ---------- every event ---------- *)
+Lemma WF_same c c' : ops c' = ops c -> running c' = running c -> WF c -> WF c'.
+Proof.
+  intros H1 H2 [A B C]. constructor.
+  - unfold RInv. rewrite H2. exact A.
+  - intros rid id Hin. rewrite H2 in Hin. destruct (B _ _ Hin) as (o & Ho). exists o. unfold get_op in *. rewrite H1. exact Ho.
+  - intros rid id o Hin Ho. rewrite H2 in Hin. eapply C; eauto. unfold get_op in *. rewrite <- H1. exact Ho.
+Qed.
+
+Lemma ctl_step_wf_left c e : WF c -> WF (fst (ctl_step c e)) /\ Left c (fst (ctl_step c e)).
+Proof.
+  intros H. destruct e; cbn [ctl_step].
+  - (* ECreate *)
+    cbn [fst]. destruct (is_some (get_op c id)) eqn:E; [split; [exact H|apply Left_refl]|].
+    split; [|apply Left_same; reflexivity].
+    destruct H as [A B C]. constructor.
+    + exact A.
+    + intros r i Hin. destruct (B _ _ Hin) as (o & Ho). exists o.
+      unfold get_op, set_ops, upd in *; cbn. apply get_op_app. exact Ho.
+    + intros r i o Hin Ho. destruct (B _ _ Hin) as (x & Hx).
+      assert (Ho' : get_op (set_ops c (ops c ++ [Opr id rid cv ver steps 0 CREATED level kregion desc false false])) i = Some x).
+      { unfold get_op, set_ops, upd in *; cbn. apply get_op_app. exact Hx. }
+      rewrite Ho' in Ho. inversion Ho; subst. eapply C; eauto.
+  - pose proof (frame_add_operator c ids) as F. pose proof (left_add_operator c ids H) as L.
+    destruct (add_operator c ids) as [c' ok]. cbn [fst] in *. split; [eapply WF_frame; eauto|exact L].
+  - pose proof (frame_add_waiting c ids) as F. pose proof (left_add_waiting c ids H) as L.
+    destruct (add_waiting c ids) as [c' n]. cbn [fst] in *. split; [eapply WF_frame; eauto|exact L].
+  - cbn [fst]. split; [eapply WF_frame; [apply frame_promote|exact H]|apply left_promote; exact H].
+  - (* EHeartbeat *)
+    destruct (alist_get (truth c) rid) as [r|]; cbn [fst]; [|split; [exact H|apply Left_refl]].
+    set (c1 := upd c (truth c) (alist_set (cache c) rid r) (ops c) (running c) (waiting c) (wcount c) (records c) (inbox c)).
+    assert (H1 : WF c1) by (eapply WF_same; [| |exact H]; reflexivity).
+    split; [eapply WF_frame; [apply frame_dispatch|exact H1]|].
+    intros rr ii Hin. apply (left_dispatch c1 rid r true H1 rr ii). exact Hin.
+  - destruct (alist_get (cache c) rid) as [r|]; cbn [fst]; [|split; [exact H|apply Left_refl]].
+    split; [eapply WF_frame; [apply frame_dispatch|exact H]|apply left_dispatch; exact H].
+  - pose proof (frame_remove_operator c id) as F. pose proof (left_remove_operator c id (wf_rinv _ H)) as L.
+    destruct (remove_operator c id) as [c' ok]. cbn [fst] in *. split; [eapply WF_frame; eauto|exact L].
+  - destruct (first_for rid (inbox c)) as [m|]; [|split; [exact H|apply Left_refl]].
+    destruct (alist_get (truth c) rid) as [r|]; [|split; [exact H|apply Left_refl]].
+    destruct (deliver r m) as [r' d]. cbn [fst]. split; [eapply WF_same; [| |exact H]; reflexivity|apply Left_same; reflexivity].
+  - cbn [fst]. split; [eapply WF_same; [| |exact H]; reflexivity|apply Left_same; reflexivity].
+  - destruct (alist_get (truth c) rid) as [r|]; [|split; [exact H|apply Left_refl]].
+    destruct (apply_cmd r c0); cbn [fst]; (split; [eapply WF_same; [| |exact H]; reflexivity|apply Left_same; reflexivity]).
+  - cbn [fst]. destruct (get_op c id) as [o|] eqn:Ho; [|split; [exact H|apply Left_refl]].
+    split; [|apply Left_same; reflexivity].
+    eapply WF_frame; [|exact H]. apply frame_op_update with (id := id) (o := o); [exact Ho|apply rel_with_flags].
+  - cbn [fst]. destruct (get_op c id) as [o|] eqn:Ho; [|split; [exact H|apply Left_refl]].
+    split; [|apply Left_same; reflexivity].
+    eapply WF_frame; [|exact H]. apply frame_op_update with (id := id) (o := o); [exact Ho|apply rel_with_flags].
+  - cbn [fst]. split; [eapply WF_same; [| |exact H]; reflexivity|apply Left_same; reflexivity].
+Qed.
+
+Lemma WF_init maxw : WF (init maxw).
+Proof. constructor; unfold RInv, RunOps, KeyOk, init; cbn; intros; try contradiction. constructor. Qed.
+
+Lemma WF_history maxw es : WF (run_state ctl_step (init maxw) es).
+Proof.
+  assert (G : forall es c, WF c -> WF (run_state ctl_step c es)).
+  { induction es0 as [|e r IH]; intros c H; cbn [run_state]; [exact H|]. apply IH. apply ctl_step_wf_left. exact H. }
+  apply G, WF_init.
+Qed.
+
+Lemma left_running_is_ended_pf maxw es e rid id :
+  In (rid, id) (running (run_state ctl_step (init maxw) es)) ->
+  ~ In (rid, id) (running (fst (ctl_step (run_state ctl_step (init maxw) es) e))) ->
+  exists o, get_op (fst (ctl_step (run_state ctl_step (init maxw) es) e)) id = Some o /\ is_end_status (o_st o) = true.
+Proof.
+  intros Hin Hout. destruct (ctl_step_wf_left _ e (WF_history maxw es)) as [_ L].
+  destruct (L _ _ Hin) as [X|X]; [contradiction|exact X].
+Qed.
+
+(* running entries are keyed by the operator's own region, in every reachable state *)
+Lemma running_keyed_pf maxw es rid id o :
+  In (rid, id) (running (run_state ctl_step (init maxw) es)) ->
+  get_op (run_state ctl_step (init maxw) es) id = Some o -> o_rid o = rid.
+Proof. intros Hin Ho. eapply (wf_key _ (WF_history maxw es)); eauto. Qed.
